@@ -148,12 +148,23 @@ pub fn build_sweep(tier: Tier) -> Vec<IoRun> {
                     push(&w, scratch(), Pre::Absent, base(vec![(k, WriteFault::Hard(e))]), None, &mut runs);
                 }
                 push(&w, scratch(), Pre::Absent, base(vec![(k, WriteFault::Zero)]), None, &mut runs);
-                // torn: part of the buffer accepted, then the device fails
+                // torn: part of the buffer accepted, then the device fails (persistently or transiently)
+                for e in WRITE_ERRNOS {
+                    push(
+                        &w,
+                        scratch(),
+                        Pre::Absent,
+                        base(vec![(k, WriteFault::Short(ShortSpec::Half)), (k + 1, WriteFault::Hard(e))]),
+                        None,
+                        &mut runs,
+                    );
+                }
+                // a transient error before anything was accepted, and a zero return after partial progress
                 push(
                     &w,
                     scratch(),
                     Pre::Absent,
-                    base(vec![(k, WriteFault::Short(ShortSpec::Half)), (k + 1, WriteFault::Hard(libc::ENOSPC))]),
+                    base(vec![(k, WriteFault::Short(ShortSpec::One)), (k + 1, WriteFault::Zero)]),
                     None,
                     &mut runs,
                 );
@@ -485,20 +496,62 @@ pub fn check_main(tier: Tier) -> i32 {
                 tier.name().into(),
                 "--max-secs".into(),
                 b.max_secs.to_string(),
-                "--conc-count".into(),
-                ((b.conc_runs + w as u64 - 1) / w as u64).to_string(),
             ]
         })
         .collect();
     let mut outs = pool::run_children(&argvs);
+
+    // concurrent-caller runs: separate workers, alternating between the facade and the plain
+    // harness variant (under the facade a lock held by a descheduled caller is a "blocked"
+    // scheduling point; under the plain variant it hangs the run, which the watchdog ends).
+    let variants = pool::variants();
+    let per_conc = (b.conc_runs + w as u64 - 1) / w as u64;
+    let mut pending: Vec<(usize, u64, u64)> = if per_conc > 0 { (0..w).map(|i| (i, i as u64, per_conc)).collect() } else { vec![] };
     let mut hung_runs = 0u64;
-    for o in outs.iter_mut() {
-        // a hung concurrent run (a blocking primitive the simulator does not own) ends the worker
-        // early with code 3; what it did until then counts, the hang is recorded, never a verdict
-        if o.code == Some(3) {
-            o.code = Some(0);
-            hung_runs += 1;
+    for _round in 0..4 {
+        if pending.is_empty() {
+            break;
         }
+        let cargs: Vec<Vec<String>> = pending
+            .iter()
+            .map(|(_, start, count)| {
+                vec![
+                    "c19-worker".to_string(),
+                    "--seed".into(),
+                    seed.to_string(),
+                    "--start".into(),
+                    start.to_string(),
+                    "--stride".into(),
+                    w.to_string(),
+                    "--count".into(),
+                    "0".into(),
+                    "--conc-count".into(),
+                    count.to_string(),
+                    "--max-secs".into(),
+                    b.max_secs.to_string(),
+                ]
+            })
+            .collect();
+        let exes: Vec<std::path::PathBuf> = pending.iter().map(|(i, _, _)| variants[i % variants.len()].1.clone()).collect();
+        let round = pool::run_children_exes(&exes, &cargs, w);
+        let mut next = Vec::new();
+        for ((i, start, count), mut o) in pending.iter().cloned().zip(round.into_iter()) {
+            if o.code == Some(3) {
+                // a hung run (a blocking primitive the simulator does not own) ends the worker early;
+                // what it did until then counts, the hang is recorded, the worker is restarted after it
+                o.code = Some(0);
+                hung_runs += 1;
+                if let Some(h) = o.lines.iter().find(|l| l.starts_with("{\"hang\"")).and_then(|l| serde_json::from_str::<Value>(l).ok()).and_then(|v| v["hang"].as_u64()) {
+                    let jj = h - super::conc::CONC_BASE;
+                    let done = (jj - start) / w as u64 + 1;
+                    if count > done {
+                        next.push((i, jj + w as u64, count - done));
+                    }
+                }
+            }
+            outs.push(o);
+        }
+        pending = next;
     }
 
     let mut stats = Stats::default();
